@@ -121,6 +121,7 @@ func (s *Solver) readSexp() (string, error) {
 	depth := 0
 	started := false
 	inStr := false
+	inBar := false
 	for {
 		b, err := s.out.ReadByte()
 		if err != nil {
@@ -139,7 +140,15 @@ func (s *Solver) readSexp() (string, error) {
 			}
 			continue
 		}
+		if inBar {
+			if b == '|' {
+				inBar = false
+			}
+			continue
+		}
 		switch b {
+		case '|':
+			inBar = true
 		case '"':
 			inStr = true
 		case '(':
